@@ -880,7 +880,7 @@ def fam_shared_weights(seed):
 def fam_lut_stress(seed):
     r = rng_for("lut", seed)
     g = G(r, "int8")
-    h, w, c = int(r.choice([4, 8, 12])), int(r.choice([4, 8])), int(r.choice([8, 16]))
+    h, w, c = int(r.choice([4, 8, 12, 24, 32])), int(r.choice([4, 8])), int(r.choice([8, 16]))  # tall maps: table operations striped inside cascades
     x = g.input([1, h, w, c])
     kinds = ["logistic", "tanh", "leaky_relu", "hard_swish"]
     n = int(r.integers(2, 6))
